@@ -1,4 +1,5 @@
 import GateryModel.C18.Lemmas3
+import GateryModel.C18.Seq
 /-! `extractBigInt` (both code paths) equals the unsigned number spelled by the addressed bits. -/
 namespace Gatery.C18
 open Gatery.Gen
@@ -94,5 +95,268 @@ theorem extractBigInt_spec (p : Plane) (n off size : Nat) (hin : off + size ≤ 
   · have : off + j < n := by omega
     simp [hj, this]
   · simp [hj]
+
+/-! ### insertBigInt -/
+
+theorem wordsToNat_lt (ws : List W) : wordsToNat ws < 2 ^ (64 * ws.length) := by
+  induction ws with
+  | nil => simp [wordsToNat]
+  | cons w ws ih =>
+    simp only [wordsToNat, List.length_cons]
+    have hw := w.isLt
+    have : 2 ^ (64 * (ws.length + 1)) = 2^64 * 2 ^ (64 * ws.length) := by
+      rw [Nat.mul_add, Nat.pow_add, Nat.mul_comm]
+    rw [this]
+    have h2 : 2^64 * (wordsToNat ws + 1) ≤ 2^64 * 2 ^ (64 * ws.length) := Nat.mul_le_mul_left _ ih
+    rw [Nat.mul_add] at h2
+    omega
+
+theorem wordsToNat_natToWords (fuel n : Nat) (h : n < fuel) : wordsToNat (natToWords fuel n) = n := by
+  induction fuel generalizing n with
+  | zero => omega
+  | succ f ih =>
+    unfold natToWords
+    split
+    · rename_i h0; simp [wordsToNat, h0]
+    · rename_i h0
+      simp only [wordsToNat]
+      have hd : n / 2^64 < f := by
+        have : n / 2^64 < n := Nat.div_lt_self (by omega) (by decide)
+        omega
+      rw [ih _ hd, BitVec.toNat_ofNat]
+      exact Nat.mod_add_div n (2^64)
+
+theorem natToWords_isEmpty (fuel n : Nat) (h : n < fuel) : (natToWords fuel n).isEmpty = decide (n = 0) := by
+  cases fuel with
+  | zero => omega
+  | succ f =>
+    unfold natToWords
+    by_cases h0 : n = 0 <;> simp [h0]
+
+theorem wordsToNat_append (a b : List W) : wordsToNat (a ++ b) = wordsToNat a + 2 ^ (64 * a.length) * wordsToNat b := by
+  induction a with
+  | nil => simp [wordsToNat]
+  | cons w ws ih =>
+    simp only [List.cons_append, wordsToNat, ih, List.length_cons]
+    have : 2 ^ (64 * (ws.length + 1)) = 2^64 * 2 ^ (64 * ws.length) := by
+      rw [Nat.mul_add, Nat.pow_add, Nat.mul_comm]
+    rw [this, Nat.mul_add, Nat.mul_assoc]
+    omega
+
+theorem wordsToNat_replicate_ones (k : Nat) : wordsToNat (List.replicate k (~~~(0#64))) + 1 = 2 ^ (64 * k) := by
+  induction k with
+  | zero => simp [wordsToNat]
+  | succ k ih =>
+    simp only [List.replicate_succ, wordsToNat]
+    have : 2 ^ (64 * (k + 1)) = 2^64 * 2 ^ (64 * k) := by
+      rw [Nat.mul_add, Nat.pow_add, Nat.mul_comm]
+    rw [this, ← ih, Nat.mul_add]
+    have : (~~~(0#64) : W).toNat = 2^64 - 1 := by decide
+    omega
+
+theorem wordsToNat_map_not (ws : List W) : wordsToNat (ws.map (~~~ ·)) + wordsToNat ws + 1 = 2 ^ (64 * ws.length) := by
+  induction ws with
+  | nil => simp [wordsToNat]
+  | cons w ws ih =>
+    simp only [List.map_cons, wordsToNat, List.length_cons]
+    have : 2 ^ (64 * (ws.length + 1)) = 2^64 * 2 ^ (64 * ws.length) := by
+      rw [Nat.mul_add, Nat.pow_add, Nat.mul_comm]
+    rw [this, ← ih]
+    have hn : (~~~w).toNat = 2^64 - 1 - w.toNat := by
+      rw [BitVec.toNat_not]
+    have hw := w.isLt
+    simp only [Nat.mul_add]
+    omega
+
+/-- the two's complement helper: `bitwiseNegation(|v|, width) + 1 = 2^(64·T) − |v|` for some `T` with `64·T ≥ width` -/
+theorem bitwiseNegation_succ (a width : Nat) :
+    ∃ T, width ≤ 64 * T ∧ a < 2 ^ (64 * T) ∧ bitwiseNegation a width + 1 + a = 2 ^ (64 * T) := by
+  unfold bitwiseNegation
+  simp only
+  let ws := natToWords (a + 1) a
+  have ha : wordsToNat ws = a := wordsToNat_natToWords _ _ (by omega)
+  have hlt := wordsToNat_lt ws
+  refine ⟨ws.length + ((width + 63) / 64 - ws.length), by omega, ?_, ?_⟩
+  · rw [ha] at hlt
+    exact Nat.lt_of_lt_of_le hlt (Nat.pow_le_pow_right (by decide) (by omega))
+  · show wordsToNat (ws.map (~~~ ·) ++ List.replicate ((width + 63) / 64 - (ws.map (~~~ ·)).length) (~~~(0#64))) + 1 + a = _
+    rw [wordsToNat_append, List.length_map]
+    have h1 := wordsToNat_map_not ws
+    have h2 := wordsToNat_replicate_ones ((width + 63) / 64 - ws.length)
+    rw [ha] at h1
+    rw [Nat.mul_add, Nat.pow_add, ← h2, Nat.mul_add, ← h1]
+    omega
+
+/-- the magnitude written by `insertBigInt` is congruent to `v` modulo `2^size` -/
+theorem bigM_mod (v : Int) (size : Nat) :
+    (if v < 0 then bitwiseNegation v.natAbs size + 1 else v.toNat) % 2 ^ size = (v % (2 ^ size : Int)).toNat := by
+  have hpow : ((2 ^ size : Nat) : Int) = (2 : Int) ^ size := by push_cast; rfl
+  split
+  · rename_i hneg
+    obtain ⟨T, hT, _, hsum⟩ := bitwiseNegation_succ v.natAbs size
+    generalize bitwiseNegation v.natAbs size + 1 = m at hsum
+    have hv : v = -(v.natAbs : Int) := by omega
+    have hsplit : 2 ^ (64 * T) = 2 ^ size * 2 ^ (64 * T - size) := by
+      rw [← Nat.pow_add]; congr 1; omega
+    have hm : (m : Int) = v + (2 : Int) ^ size * ((2 ^ (64 * T - size) : Nat) : Int) := by
+      rw [← hpow, ← Int.natCast_mul, ← hsplit, ← hsum]
+      push_cast; omega
+    have : ((m % 2 ^ size : Nat) : Int) = v % (2 : Int) ^ size := by
+      rw [Int.natCast_emod, hm, hpow, Int.add_mul_emod_self_left]
+    rw [← this, Int.toNat_natCast]
+  · rename_i hpos
+    obtain ⟨n, rfl⟩ := Int.eq_ofNat_of_zero_le (by omega : 0 ≤ v)
+    rw [← hpow]
+    simp only [Int.toNat_natCast]
+    rw [← Int.natCast_emod, Int.toNat_natCast]
+
+theorem bigM_testBit (v : Int) (size j : Nat) (hj : j < size) :
+    (if v < 0 then bitwiseNegation v.natAbs size + 1 else v.toNat).testBit j = ((v % (2 ^ size : Int)).toNat).testBit j := by
+  rw [← bigM_mod, Nat.testBit_mod_two_pow]
+  simp [hj]
+
+theorem insertBigIntChunks_length (p : Plane) (off size : Nat) (words : List W) (fuel chunk : Nat) :
+    (insertBigIntChunks p off size words fuel chunk).length = p.length := by
+  induction fuel generalizing p chunk with
+  | zero => simp [insertBigIntChunks]
+  | succ f ih =>
+    unfold insertBigIntChunks
+    split
+    · simp only
+      rw [ih]
+      split <;> simp [insertNS_length, setRange_length]
+    · rfl
+
+theorem bit_insertBigIntChunks (p : Plane) (off size : Nat) (words : List W) (fuel chunk i : Nat)
+    (hoff : off % 64 = 0) (hch : chunk % 64 = 0 ∨ size ≤ chunk) (hin : off + size ≤ 64 * p.length)
+    (hfuel : size ≤ chunk + 64 * fuel) :
+    bit (insertBigIntChunks p off size words fuel chunk) i =
+      if off + chunk ≤ i ∧ i < off + size then (wordsToNat words).testBit (i - off) else bit p i := by
+  induction fuel generalizing p chunk with
+  | zero =>
+    have : ¬ (off + chunk ≤ i ∧ i < off + size) := by omega
+    simp [insertBigIntChunks, this]
+  | succ f ih =>
+    unfold insertBigIntChunks
+    split
+    · rename_i hlt
+      have hc0 : chunk % 64 = 0 := by omega
+      simp only
+      have hcs : min 64 (size - chunk) ≤ 64 := Nat.min_le_left _ _
+      have hcs2 : min 64 (size - chunk) ≤ size - chunk := Nat.min_le_right _ _
+      have hcs3 : 0 < min 64 (size - chunk) := by omega
+      generalize hcsdef : min 64 (size - chunk) = cs at *
+      have hnext : (chunk + cs) % 64 = 0 ∨ size ≤ chunk + cs := by omega
+      rw [ih _ _ hnext (by split <;> simp [insertNS_length, setRange_length, hin]) (by omega)]
+      by_cases hin2 : off + (chunk + cs) ≤ i ∧ i < off + size
+      · simp only [hin2, and_self, if_true]
+        have : off + chunk ≤ i := by omega
+        simp [this]
+      · simp only [hin2, if_false]
+        by_cases hhere : off + chunk ≤ i ∧ i < off + size
+        · -- the bit written in this iteration
+          have hr : off + chunk ≤ i ∧ i < off + chunk + cs := by omega
+          simp only [hhere, and_self, if_true]
+          rw [wordsToNat_testBit]
+          have e1 : (i - off) / 64 = chunk / 64 := by omega
+          have e2 : (i - off) % 64 = i - (off + chunk) := by omega
+          rw [e1, e2]
+          split
+          · rw [bit_insertNS _ _ _ _ _ ⟨by omega, by intro; omega⟩]
+            simp [hr]
+          · rename_i hw
+            rw [bit_setRange _ _ _ _ _ (by unfold InRange; omega)]
+            have : words[chunk / 64]? = none := List.getElem?_eq_none (by omega)
+            simp [hr, this]
+        · simp only [hhere, if_false]
+          have hr : ¬ (off + chunk ≤ i ∧ i < off + chunk + cs) := by omega
+          split
+          · rw [bit_insertNS _ _ _ _ _ ⟨by omega, by intro; omega⟩]
+            simp [hr]
+          · rw [bit_setRange _ _ _ _ _ (by unfold InRange; omega)]
+            simp [hr]
+    · rename_i hge
+      have : ¬ (off + chunk ≤ i ∧ i < off + size) := by omega
+      simp [this]
+
+/-- `insertBigInt` writes `v mod 2^size` (two's complement for negative `v`) into `[off, off+size)` and nothing else -/
+theorem bit_insertBigInt (p : Plane) (off size i : Nat) (v : Int) (hin : off + size ≤ 64 * p.length)
+    (hal : size > 64 → off % 64 = 0) :
+    bit (insertBigInt p off size v) i =
+      if off ≤ i ∧ i < off + size then ((v % (2 ^ size : Int)).toNat).testBit (i - off) else bit p i := by
+  unfold insertBigInt
+  simp only
+  generalize hm : (if v < 0 then bitwiseNegation v.natAbs size + 1 else v.toNat) = m
+  have hmt : ∀ j, j < size → m.testBit j = ((v % (2 ^ size : Int)).toNat).testBit j := by
+    intro j hj; rw [← hm]; exact bigM_testBit v size j hj
+  have hw : wordsToNat (natToWords (m + 1) m) = m := wordsToNat_natToWords _ _ (by omega)
+  split
+  · rename_i hs
+    split
+    · rename_i he
+      rw [natToWords_isEmpty _ _ (by omega)] at he
+      have hm0 : m = 0 := by simpa using he
+      rw [bit_setRange _ _ _ _ _ hin]
+      by_cases hr : off ≤ i ∧ i < off + size
+      · simp only [hr, and_self, if_true]
+        rw [← hmt _ (by omega), hm0]; simp
+      · simp [hr]
+    · rename_i he
+      rw [bit_insert _ _ _ _ _ ⟨hs, by intro; omega, by intro; omega⟩]
+      by_cases hr : off ≤ i ∧ i < off + size
+      · simp only [hr, and_self, if_true]
+        rw [← hmt _ (by omega)]
+        have := wordsToNat_testBit (natToWords (m + 1) m) (i - off)
+        rw [hw] at this
+        rw [this]
+        have e1 : (i - off) / 64 = 0 := by omega
+        have e2 : (i - off) % 64 = i - off := by omega
+        rw [e1, e2]
+        rfl
+      · simp [hr]
+  · rename_i hs
+    rw [bit_insertBigIntChunks _ _ _ _ _ _ _ (hal (by omega)) (Or.inl rfl) hin (by omega), hw]
+    by_cases hr : off ≤ i ∧ i < off + size
+    · simp only [Nat.add_zero, hr, and_self, if_true]
+      exact hmt _ (by omega)
+    · simp [hr]
+
+theorem insertBigInt_length (p : Plane) (off size : Nat) (v : Int) : (insertBigInt p off size v).length = p.length := by
+  unfold insertBigInt
+  simp only
+  generalize (if v < 0 then bitwiseNegation v.natAbs size + 1 else v.toNat) = m
+  split
+  · split
+    · exact setRange_length _ _ _ _
+    · exact insert_length _ _ _ _
+  · exact insertBigIntChunks_length _ _ _ _ _ _
+
+theorem insertBigInt_abs (p : Plane) (n off size : Nat) (v : Int) (hin : off + size ≤ 64 * p.length)
+    (hal : size > 64 → off % 64 = 0) :
+    absPlane (insertBigInt p off size v) n = specBigInsert (absPlane p n) off size v := by
+  unfold specBigInsert
+  simp only [absPlane_length]
+  apply abs_of_pointwise p
+  intro i hi
+  rw [bit_insertBigInt _ _ _ _ _ hin hal, sBit_absPlane]
+  simp [hi]
+
+/-- write then read: the big-integer round trip returns `v mod 2^size` -/
+theorem extract_insertBigInt (p : Plane) (off size : Nat) (v : Int) (hin : off + size ≤ 64 * p.length)
+    (hal : size > 64 → off % 64 = 0) :
+    extractBigInt (insertBigInt p off size v) off size = (v % (2 ^ size : Int)).toNat := by
+  apply Nat.eq_of_testBit_eq
+  intro j
+  rw [extractBigInt_testBit _ _ _ _ (by rw [insertBigInt_length]; exact hin) hal, bit_insertBigInt _ _ _ _ _ hin hal]
+  by_cases hj : j < size
+  · have : off ≤ off + j ∧ off + j < off + size := by omega
+    simp [hj, this]
+  · have hlt : (v % (2 ^ size : Int)).toNat < 2 ^ size := by
+      have h1 : v % (2 ^ size : Int) < 2 ^ size := Int.emod_lt_of_pos _ (Int.pow_pos (by decide))
+      have h0 : 0 ≤ v % (2 ^ size : Int) := Int.emod_nonneg _ (Int.pow_ne_zero (by decide))
+      have hpow : ((2 ^ size : Nat) : Int) = (2 : Int) ^ size := by push_cast; rfl
+      omega
+    have : (v % (2 ^ size : Int)).toNat < 2 ^ j := Nat.lt_of_lt_of_le hlt (Nat.pow_le_pow_right (by decide) (by omega))
+    simp [hj, Nat.testBit_lt_two_pow this]
 
 end Gatery.C18
